@@ -194,10 +194,8 @@ func runC02(c *Ctx) {
 			stored := litField(stripConv(args[len(args)-1]), "cfg")
 			c.check(stored != nil && derivesAll(stored, isRes, nil), "published-from-compose", relName(sf)+"#store", sc.Pos(), "published cfg is the compose result", "published cfg does not derive from the compose result")
 		}
-		for _, op := range chanOps(sf) {
-			if op.Send && chanIsField(op.Chan, k.fUpdates) {
-				c.check(derivesAll(op.Val, isRes, nil), "published-from-compose", relName(sf)+"#events", op.Instr.Pos(), "Events value is the compose result", "Events value does not derive from the compose result")
-			}
+		for _, op := range k.eventsSendsIn(sf) {
+			c.check(derivesAll(op.Val, isRes, nil), "published-from-compose", relName(sf)+"#events", op.Instr.Pos(), "Events value is the compose result", "Events value does not derive from the compose result")
 		}
 	}
 
